@@ -26,11 +26,13 @@ def known_rules(prop):
 SAFE = [("base", 150, 3000), ("pop", 60, 1500), ("queue", 60, 1500), ("stop", 60, 1500), ("stoppop", 80, 1500), ("manual", 40, 800), ("none", 30, 500), ("narrow", 60, 1000), ("overtall", 30, 500), ("uwg", 30, 500)]
 FIND = [("nq", 60, 1200), ("latequeue", 40, 800), ("fault", 60, 1200), ("latefault", 40, 800)]
 
+FINDING_FAMILIES = {"fault", "latefault", "nq", "latequeue", "narrow"}
+
 SCHED_PLANS = {
     "C01": SAFE + FIND + [("delay", 40, 800)],
     "C02": SAFE + FIND,
-    "C03": [("base", 200, 4000), ("uwg", 60, 1000), ("tall", 30, 400), ("tail", 150, 3000), ("pop", 80, 1500), ("queue", 60, 1500), ("nq", 40, 800)],
-    "C05": [("delay", 40, 800), ("fault", 100, 2000), ("base", 200, 4000), ("pop", 80, 1500), ("queue", 80, 1500), ("stop", 40, 1000), ("nq", 60, 1200)],
+    "C03": [("base", 200, 4000), ("uwg", 60, 1000), ("manual", 80, 1500), ("tall", 30, 400), ("tail", 150, 3000), ("pop", 80, 1500), ("queue", 60, 1500), ("nq", 40, 800)],
+    "C05": [("many", 3, 30), ("delay", 40, 800), ("fault", 100, 2000), ("base", 200, 4000), ("pop", 80, 1500), ("queue", 80, 1500), ("stop", 40, 1000), ("nq", 60, 1200)],
     "C06": [("prio", 150, 3000), ("base", 250, 5000), ("pop", 100, 2000), ("queue", 80, 1500), ("stop", 40, 800)],
     "C11": SAFE + [("fault", 80, 1500)],
     "C12": [("narrow", 80, 1500), ("base", 250, 5000), ("pop", 60, 1000), ("queue", 60, 1000), ("stop", 40, 800), ("nq", 40, 800)],
@@ -137,10 +139,24 @@ def sched_part(prop, tier, seed, extra_cov=None, extra_assume=None, tlc_runs=())
         sample = [x for x in scs if x["sched"]["mode"] != "free" and cb.scenario_to_config(x) is not None][:nval]
         for x in sample:
             x["stats"] = True
+        # in the families in which the recorded findings live every translatable program is recorded gate by gate: a hang
+        # or leak is only attributed to a recorded finding if the specification, which contains the finding's mechanism,
+        # reproduces the execution
+        for x in scs:
+            if x["family"] in FINDING_FAMILIES and x["sched"]["mode"] != "free" and cb.scenario_to_config(x) is not None:
+                x["stats"] = True
         traces = core.run_scenarios(binary, wd, scs)
         bad, st, tr, nev = core.run_obs(traces, wd)
         scen_by_id = {s["id"]: s for s in scs}
         gate = validate_sample(wd, sample, traces)
+        kr = known_rules(prop)
+        suspects = sorted({b["tr"] for b in bad if prop in b["p"].split(",") and b["r"] in kr and b["r"].split("/")[0] in ("hang", "goroutine-leak")
+                           and scen_by_id[b["tr"]].get("stats") and scen_by_id[b["tr"]] not in sample})
+        explained = validate_sample(wd, [scen_by_id[t] for t in suspects], traces)
+        unexplained = set(explained["drift"]) | (set(gate["drift"]) & {b["tr"] for b in bad})
+        for b in bad:
+            if b["tr"] in unexplained and b["r"] in kr and b["r"].split("/")[0] in ("hang", "goroutine-leak"):
+                b["r"] = b["r"].split("/")[0] + "/not-reproduced-by-the-specification"
         lines, nviol, known = judge(prop, bad, scen_by_id, wd)
         hashes = {trace_hash(evs) for evs in traces.values() if nontrivial(evs)}
         sample_ids = list(traces)[:3]
@@ -167,6 +183,7 @@ def sched_part(prop, tier, seed, extra_cov=None, extra_assume=None, tlc_runs=())
                "exhaustive": False, "monitor_events": nev, "families": dict(counts),
                "gate_traces_accepted": gate["accepted"], "gate_traces_rejected": gate["rejected"], "gate_steps": gate["steps"],
                "drift_traces": gate["drift"][:10],
+               "finding_traces_reproduced_by_the_specification": explained["accepted"], "finding_traces_not_reproduced": sorted(unexplained)[:10],
                "known_findings": {k: len({b["tr"] for b in v}) for k, v in known.items()}, "model_runs": model,
                "checker_cmd": "tlc Obs.tla (batched traces) ; harness.test TestWorker"}
         if extra_cov:
@@ -507,9 +524,12 @@ def core_part(prop, tier, seed):
             trans += r["transitions"]
             model.append({k: r[k] for k in ("config", "states", "transitions", "violated")})
             if r["violated"]:
-                sid = "core-cex-%s" % name
-                scs.append(cb.scenario(name, sid, [cb.to_harness(l) for l in r["schedule"]]))
-                expect[sid] = r["violated"]
+                # the counterexample may pass through a select with several ready cases, which the Go runtime resolves:
+                # it is replayed a few times and has to reproduce at least once
+                for k in range(6):
+                    sid = "core-cex-%s-%d" % (name, k)
+                    scs.append(cb.scenario(name, sid, [cb.to_harness(l) for l in r["schedule"]]))
+                expect[name] = r["violated"]
             # half of the behaviours unrestricted (a select with several ready cases is resolved by the Go runtime, so the
             # replay may leave the schedule there), half "calm": TLC only takes steps after which no select has two ready
             # cases, and the harness can follow those to the end
@@ -531,11 +551,12 @@ def core_part(prop, tier, seed):
         lines, nviol, known = judge(prop, bad, scen, wd)
         # a model counterexample must reproduce on the code, else the model is wrong
         badtr = {b["tr"] for b in bad}
-        for sid, inv in expect.items():
-            div = [e for e in traces.get(sid, []) if e["ev"] == "diverge"]
-            if sid not in badtr:
-                raise core.Infra("MPBCore counterexample (%s, invariant %s) does not reproduce on the code%s: the model is wrong" % (
-                    sid, inv, " (diverged at step %d)" % div[0]["at"] if div else ""))
+        for name, inv in expect.items():
+            sids = ["core-cex-%s-%d" % (name, k) for k in range(6)]
+            if not any(sid in badtr for sid in sids):
+                div = [e for sid in sids for e in traces.get(sid, []) if e["ev"] == "diverge"]
+                raise core.Infra("MPBCore counterexample (%s, invariant %s) does not reproduce on the code in 6 replays%s: the model is wrong" % (
+                    name, inv, " (%d of them left the schedule, first at step %d)" % (len(div), div[0]["at"]) if div else ""))
         diverged = [tid for tid, evs in traces.items() if any(e["ev"] == "diverge" for e in evs)]
         calm_div = [tid for tid in diverged if tid in calm]
         # a calm behaviour that was followed to its end must end the way the specification says
